@@ -84,8 +84,12 @@ class FnModel:
             if e.kind in ('store', 'attrstore', 'augstore'):
                 tgt = w.expand(e.target, self.ren)
                 val = w.expand(e.value, self.ren) if e.value is not None else None
-                self.effects.append(Effect(e.kind, src(tgt), src(val) if val is not None else '',
-                                           g, e, val, tgt))
+                # a conditional value that only shows after expansion (a helper returning a
+                # tuple of conditional expressions) is split into guarded alternatives
+                for v_alt, g_alt in self._alts(val, g):
+                    self.effects.append(Effect(e.kind, src(tgt),
+                                               src(v_alt) if v_alt is not None else '',
+                                               g_alt, e, v_alt, tgt))
             elif e.kind == 'delete':
                 tgt = w.expand(e.target, self.ren)
                 self.effects.append(Effect('delete', src(tgt), '', g, e, None, tgt))
@@ -103,6 +107,14 @@ class FnModel:
                 val = w.expand(e.value, self.ren) if e.value is not None else None
                 self.raises.append(Effect('raise', '', src(val) if val is not None else '',
                                           g, e, val))
+
+    def _alts(self, val, g, depth: int = 4):
+        if isinstance(val, ast.IfExp) and depth > 0:
+            t = self._desugar(formula_of(val.test))
+            yield from self._alts(val.body, f_and(g, t), depth - 1)
+            yield from self._alts(val.orelse, f_and(g, f_not(t)), depth - 1)
+        else:
+            yield val, g
 
     # ------------------------------------------------------------ formulas
     def formula(self, f):
